@@ -191,6 +191,10 @@ class Ctx:
         rc, out, _ = sh(r"grep -rnE '\b(Admitted|admit|Axiom|Parameter|Conjecture|bypass_check)\b|Unset Guard|type-in-type|Admit Obligations' --include=*.v . || true",
                         cwd=COQ)
         hits = [l for l in out.splitlines() if l.strip() and not re.search(r"\(\*.*(Axiom|Parameter|admit).*\*\)", l)]
+        # Variable / Hypothesis outside a Section (would declare an axiom), guard switches, leftover automation
+        rc2, out2, _ = sh(["python3", os.path.join(VERIF, "tools", "scan_coq.py"), COQ])
+        if rc2 != 0:
+            hits += [l for l in out2.splitlines() if l.strip() and l not in hits][:10]
         return hits
 
     def new_shard(self, text: str, name: str | None = None) -> str:
